@@ -1245,7 +1245,11 @@ class Database:
             for paramName in params or h5GroupForType.keys():
                 if paramName == "location":
                     # location is special, since it is stored in layout/
-                    data = np.array(layout.location)[objectIndicesInLayout]
+                    # not np.array(layout.location): the locations of objects with several
+                    # positions (pins) are lists of index tuples, so the table is ragged
+                    data = self._asObjectArray(
+                        [layout.location[i] for i in objectIndicesInLayout]
+                    )
                 elif paramName in h5GroupForType:
                     dataSet = h5GroupForType[paramName]
                     try:
@@ -1407,7 +1411,7 @@ class Database:
                         locs = []
                         for id in indexInData:
                             locs.append((layout.location[layoutIndicesForType[id]]))
-                        data = np.array(locs)
+                        data = self._asObjectArray(locs)
                     elif paramName in h5GroupForType:
                         dataSet = h5GroupForType[paramName]
                         try:
@@ -1509,6 +1513,14 @@ class Database:
                 obj.attrs[key] = "@{}".format(linkName)
 
     @staticmethod
+    def _asObjectArray(values):
+        """One array entry per value, whatever the values are (tuples, lists of tuples...)."""
+        out = np.empty(len(values), dtype=object)
+        for i, val in enumerate(values):
+            out[i] = val
+        return out
+
+    @staticmethod
     def _unpackSerialized(data, dataSet, h5group, paramName, comp):
         """Undo a parameter's custom serialization (e.g. of flags), as reading a whole state does."""
         try:
@@ -1518,11 +1530,9 @@ class Database:
         if pDef.serializer is None or _SERIALIZER_NAME not in dataSet.attrs:
             return data
         attrs = Database._resolveAttrs(dataSet.attrs, h5group)
-        unpacked = pDef.serializer.unpack(data, dataSet.attrs[_SERIALIZER_VERSION], attrs)
-        out = np.empty(len(unpacked), dtype=object)
-        for i, val in enumerate(unpacked):
-            out[i] = val
-        return out
+        return Database._asObjectArray(
+            pDef.serializer.unpack(data, dataSet.attrs[_SERIALIZER_VERSION], attrs)
+        )
 
     @staticmethod
     def _resolveAttrs(attrs, group):
